@@ -671,73 +671,64 @@ func wholeInputRule(w *World, r *Report, prop string) {
 		return at, at != nil
 	}
 	n := 0
+	// entry points: parser-package functions that run a start rule in their unit and are not themselves helpers of another one
+	var units []*parseUnit
+	helper := map[*ssa.Function]bool{}
 	for _, fn := range w.srcFuncs {
-		if fn.Pkg != w.Parser {
+		if fn.Pkg != w.Parser || fn.Parent() != nil {
 			continue
 		}
-		var starts []*ssa.Call
-		forEachInstr(fn, func(_ *ssa.BasicBlock, ins ssa.Instruction) {
-			c, ok := ins.(*ssa.Call)
-			if !ok {
-				return
+		u := newParseUnit(w, fn)
+		if !u.contains(fn, func(ins ssa.Instruction) bool { _, ok := u.isStartRuleCall(ins); return ok }, map[*ssa.Function]bool{}) {
+			continue
+		}
+		units = append(units, u)
+		for g := range u.fns {
+			if g != fn {
+				helper[g] = true
 			}
-			f := c.Call.StaticCallee()
-			if f == nil || f.Pkg != w.Grammar || f.Signature.Recv() == nil || !strings.HasSuffix(types.TypeString(f.Signature.Recv().Type(), shortQual), "Parser") {
-				return
-			}
-			if ruleOf[f.Name()] != nil && f.Signature.Params().Len() == 0 {
-				starts = append(starts, c)
-			}
-		})
-		for _, sc := range starts {
-			n++
-			pr := ruleOf[sc.Call.StaticCallee().Name()]
-			key := fmt.Sprintf("%s: input left over after rule '%s' is a syntax error", fnKey(fn), pr.Name)
-			if endsInEOF(pr) {
-				r.pass(rule, key, w.instrPos(sc), "the grammar rule ends in EOF")
-				continue
-			}
-			// checks in fn itself or in helpers called after the start rule
-			var checks []ssa.Instruction
-			if at, ok := eofCheckIn(fn); ok {
-				checks = append(checks, at)
-			}
-			forEachInstr(fn, func(_ *ssa.BasicBlock, ins ssa.Instruction) {
-				c, ok := ins.(ssa.CallInstruction)
-				if !ok {
-					return
-				}
-				g := c.Common().StaticCallee()
-				if g == nil || g.Pkg != w.Parser || g.Blocks == nil {
-					return
-				}
-				if _, ok := eofCheckIn(g); ok {
-					checks = append(checks, ins)
+		}
+	}
+	for _, u := range units {
+		fn := u.entry
+		if helper[fn] {
+			continue // judged as part of the entry point that calls it
+		}
+		var pr *PRule
+		var startIns ssa.Instruction
+		for _, f := range u.funcs() {
+			forEachInstr(f, func(_ *ssa.BasicBlock, ins ssa.Instruction) {
+				if r2, ok := u.isStartRuleCall(ins); ok && pr == nil {
+					pr, startIns = r2, ins
 				}
 			})
-			var uses []ssa.Instruction
-			forEachInstr(fn, func(_ *ssa.BasicBlock, ins ssa.Instruction) {
-				if c, ok := ins.(ssa.CallInstruction); ok && c.Common().IsInvoke() && c.Common().Method.Name() == "Accept" {
-					uses = append(uses, ins)
-				}
-			})
-			ok := len(checks) > 0 && len(uses) > 0
-			for _, u := range uses {
-				covered := false
-				for _, c := range checks {
-					if instrDominates(sc, c) && instrDominates(c, u) {
-						covered = true
-					}
-				}
-				if !covered {
-					ok = false
-				}
+		}
+		if pr == nil {
+			continue
+		}
+		n++
+		key := fmt.Sprintf("%s: input left over after rule '%s' is a syntax error", fnKey(fn), pr.Name)
+		if endsInEOF(pr) {
+			r.pass(rule, key, w.instrPos(startIns), "the grammar rule ends in EOF")
+			continue
+		}
+		isStart := func(ins ssa.Instruction) bool { _, ok := u.isStartRuleCall(ins); return ok }
+		isEOF := func(ins ssa.Instruction) bool {
+			// the branch instruction of an EOF comparison whose not-EOF edge records an error
+			if _, isIf := ins.(*ssa.If); !isIf {
+				return false
 			}
-			if ok {
-				r.pass(rule, key, w.instrPos(sc), "the current token is compared with EOF before the tree is used")
-			} else {
-				r.fail(rule, key, w.instrPos(sc), fmt.Sprintf("grammar rule '%s' does not end in EOF and %s never checks that the parser stopped at the end of the input: whatever follows the last declaration the parser could match is silently dropped (formatting deletes it, compiling ignores it, exit status 0)", pr.Name, fn.Name()))
-			}
+			at, ok := eofCheckIn(ins.Parent())
+			return ok && at == ins
+		}
+		// every function of the unit that contains an EOF check counts through eofCheckIn; ExpectEndOfInput-like helpers outside the
+		// unit's helper filter (methods of the listener) are unit members as well (parser package, no visitor receiver)
+		hasEOF := u.contains(fn, isEOF, map[*ssa.Function]bool{})
+		ordered := hasEOF && u.orderedBefore(fn, isStart, isEOF, 0) && u.orderedBefore(fn, isEOF, isAcceptCall, 0)
+		if ordered {
+			r.pass(rule, key, w.instrPos(startIns), "the current token is compared with EOF before the tree is used")
+		} else {
+			r.fail(rule, key, w.instrPos(startIns), fmt.Sprintf("grammar rule '%s' does not end in EOF and %s never checks that the parser stopped at the end of the input before the tree is used: whatever follows the last declaration the parser could match is silently dropped (formatting deletes it, compiling ignores it, exit status 0)", pr.Name, fn.Name()))
 		}
 	}
 	if n == 0 {
@@ -874,6 +865,109 @@ func computedFieldsSingle(w *World, r *Report, prop string) {
 				}
 				if edgeDominates(bb, succ, b) {
 					guarded = true
+				}
+			}
+			if !guarded {
+				// the test lives in a helper handed the field: `typ, ok := v.numericTypeOf(f, ..); if !ok {continue}` - every return of
+				// the helper whose bool result can be true is dominated, inside the helper, by the !IsRepeat edge
+				for _, bb := range fn.Blocks {
+					cond := branchCond(bb)
+					if cond == nil {
+						continue
+					}
+					val := true
+					c := cond
+					for {
+						if u, ok := c.(*ssa.UnOp); ok && u.Op == token.NOT {
+							c, val = u.X, !val
+							continue
+						}
+						break
+					}
+					var call *ssa.Call
+					resIdx := 0
+					switch x := c.(type) {
+					case *ssa.Call:
+						call = x
+					case *ssa.Extract:
+						if cc, ok := x.Tuple.(*ssa.Call); ok {
+							call, resIdx = cc, x.Index
+						}
+					}
+					if call == nil {
+						continue
+					}
+					h := call.Call.StaticCallee()
+					if h == nil || h.Blocks == nil || !w.isSubjectFunc(h) {
+						continue
+					}
+					pidx := -1
+					for i, a := range call.Call.Args {
+						if stripIdentity(a) == holder && i < len(h.Params) {
+							pidx = i
+						}
+					}
+					if pidx < 0 {
+						continue
+					}
+					succ := 0
+					if !val {
+						succ = 1
+					}
+					if !edgeDominates(bb, succ, b) {
+						continue
+					}
+					// inside h: returns with result resIdx possibly true need !param.IsRepeat
+					allOK, any := true, false
+					for _, hb := range h.Blocks {
+						ret, ok := hb.Instrs[len(hb.Instrs)-1].(*ssa.Return)
+						if !ok || resIdx >= len(ret.Results) {
+							continue
+						}
+						if k, ok := ret.Results[resIdx].(*ssa.Const); ok && k.Value != nil && k.Value.Kind() == constant.Bool && !constant.BoolVal(k.Value) {
+							continue
+						}
+						any = true
+						okRet := false
+						for _, h2 := range h.Blocks {
+							hc := branchCond(h2)
+							if hc == nil {
+								continue
+							}
+							hv := true
+							for {
+								if u, ok := hc.(*ssa.UnOp); ok && u.Op == token.NOT {
+									hc, hv = u.X, !hv
+									continue
+								}
+								break
+							}
+							ld, ok := stripIdentity(hc).(*ssa.UnOp)
+							if !ok || ld.Op != token.MUL {
+								continue
+							}
+							f3, ok := ld.X.(*ssa.FieldAddr)
+							if !ok {
+								continue
+							}
+							if tn, fname, _, _ := fieldOf(f3); tn != "Field" || fname != "IsRepeat" || stripIdentity(f3.X) != ssa.Value(h.Params[pidx]) {
+								continue
+							}
+							s2 := 1
+							if !hv {
+								s2 = 0
+							}
+							if edgeDominates(h2, s2, hb) {
+								okRet = true
+							}
+						}
+						if !okRet {
+							allOK = false
+						}
+					}
+					if any && allOK {
+						guarded = true
+					}
 				}
 			}
 			if guarded {
